@@ -32,7 +32,7 @@ def plan(tier, seed):
 def conclude(agg):
     c = agg['counters']
     return [f'monitor counter {k} is zero' for k in ('files', 'attributes_compared', 'regular_nets', 'special_nets', 'wildcards', 'via_arrays', 'via_positions',
-                                                     'oriented_vias', 'multi_segment_nets', 'three_value_points', 'empty_sections', 'wire_point_lists', 'negative_array_steps', 'rejected_files_before_parse')
+                                                     'oriented_vias', 'multi_segment_nets', 'three_value_points', 'empty_sections', 'wire_point_lists', 'negative_array_steps', 'double_wildcards', 'rejected_files_before_parse')
             if c.get(k, 0) == 0]
 
 
@@ -98,7 +98,13 @@ def gen_route(rng, special, vianames, stats):
                 k += 1
                 continue
             mode = rng.choice(['xy', 'x*', '*y', 'xy'])
-            if mode == 'x*':
+            if rng.random() < 0.08:
+                mode = '**'         # both coordinates kept: legal, and a via written after it sits at the previous position
+            if mode == '**':
+                wr = (None, None)
+                stats['wildcards'] += 1
+                stats['double_wildcards'] += 1
+            elif mode == 'x*':
                 nx_ = coord(rng)
                 wr = (nx_, None)
                 x = nx_
